@@ -37,6 +37,7 @@ pub struct Append {
 pub static mut APPEND_LOG: [Append; APPEND_LOG_MAX] = [Append { addr: 0, len: 0, head: [0; 4] }; APPEND_LOG_MAX];
 pub static mut APPEND_N: usize = 0;
 
+#[cfg(kani)]
 pub fn extend_from_slice_recording_stub<T: Clone, A: core::alloc::Allocator>(v: &mut Vec<T, A>, other: &[T]) {
     unsafe {
         let mut head = [0u8; 4];
